@@ -2,4 +2,4 @@ import Gomjml.Props.C19
 #print axioms Gomjml.Props.C19.C19_only_styles
 #print axioms Gomjml.Props.C19.C19_rendered
 #print axioms Gomjml.Props.C19.C19_no_match
-#print axioms Gomjml.Props.C19.C19_class_sites_partial
+#print axioms Gomjml.Props.C19.C19_class_sites
